@@ -143,6 +143,7 @@ type Interp struct {
 	atomicVals     map[Ptr]Value
 	reflIters      map[int]*reflMapIter
 	syncMaps       map[Ptr]*MapObj
+	symKeySeq      int
 }
 
 type ChanObj struct {
